@@ -12,7 +12,7 @@ well-formed values with repeated and optional sub-parameters. Judged, per readin
 Replay: the script (steps with value trees); a failing script is cut down to the steps of the failing resource before it is reported.
 
 Attached to checks/c01.py through `attached(...)` like dec_fir.py (the step runs in a thread next to the codec pipeline)."""
-import contextlib, json, os, random, threading, time
+import collections, contextlib, json, os, random, re, threading, time
 
 import vlib
 
@@ -36,12 +36,13 @@ def pick_values(L, G, seed, tier):
     n = 120 if tier == "thorough" else 24
     by_name = {c["name"]: c for c in L.all}
     out = {}
-    for _, name in RES + REPORTS:
+    for _, name in RES + REPORTS + [(None, "ErrorMessage")]:
         c = by_name[name]
         rnd = random.Random("%d:c01driver:%s" % (seed, name))
         cases, seen = [], set()
         for kind, v in G.Gen(L, seed, tier).cases_for(c):
-            v = _success(L, G, c, v)
+            if name != "ErrorMessage":
+                v = _success(L, G, c, v)
             cs = G.make_case(L, c, v, kind)
             if cs["wf"] and cs["hash"] not in seen and cs["size"] <= 40000 and len(cs["tree"]) <= 60000:
                 seen.add(cs["hash"])
@@ -61,7 +62,7 @@ def make_script(vals, seed):
     """steps: dict(op='read', items=[(res, tree)]) | dict(op='report', type=t, tree=tree) | dict(op='recheck')"""
     rnd = random.Random("%d:c01driver:script" % seed)
     steps = []
-    n = max(len(v) for v in vals.values())
+    n = max(len(vals[name]) for _, name in RES + REPORTS)
     for i in range(n):
         for res, name in RES:
             lst = vals[name]
@@ -87,11 +88,92 @@ def make_script(vals, seed):
     return steps
 
 
+def attempts_of(item):
+    """item = (res, tree) | (res, [attempt, ...]); attempt = tree | ["ok"|"st"|"E"|"P", tree] | ["X"]
+    ("ok": reply with status Success; "st": reply with another status; "E": ERROR_MESSAGE; "X": the Reader drops the connection;
+    "P": half of the reply's frame, then the connection is dropped) -> (res, [[kind, tree or None], ...])"""
+    res, a = item[0], item[1]
+    if isinstance(a, str):
+        return res, [["ok", a]]
+    return res, [["ok", x] if isinstance(x, str) else [x[0], x[1] if len(x) > 1 else None] for x in a]
+
+
+def status_codes():
+    """every StatusCode the library defines (read from the tree under test) except Success, plus values it does not define"""
+    codes = set()
+    try:
+        src = open(os.path.join(vlib.REPO, "pkg", "llrp", "generated_structs.go")).read()
+        codes = set(int(x) for x in re.findall(r"=\s*StatusCode\((\d+)\)", src))
+    except OSError:
+        pass
+    codes |= {1, 99, 113, 199, 210, 299, 302, 400, 401, 402, 65535}
+    codes.discard(0)
+    return sorted(codes)
+
+
+def _with_status(L, G, c, v, status_sub):
+    subs = list(v[3])
+    for i, s in enumerate(c["subs"]):
+        if s["name"] == "LLRPStatus" and s["arity"] == "one":
+            subs[i] = status_sub
+    return ['S', v[1], v[2], subs]
+
+
+def retry_steps(L, G, vals, seed, tier):
+    """exchanges whose FIRST answer is a failure of some class and whose second is a success: a reply with every non-Success status
+    (carrying a description, FieldError, ParameterError and the sub-parameters of a rich value), an ERROR_MESSAGE, a dropped connection,
+    a truncated reply. Whatever the service does (give up, or ask again), a reading it returns must be the reply that decided the exchange."""
+    rnd = random.Random("%d:c01driver:retry" % seed)
+    by_name = {c["name"]: c for c in L.all}
+    stc = by_name["LLRPStatus"]
+    # the richest LLRPStatus values the generator knows (description, FieldError, ParameterError chain)
+    sts = []
+    for kind, v in G.Gen(L, seed, tier).cases_for(stc):
+        cs = G.make_case(L, stc, v, kind)
+        if cs["wf"] and cs["utf8"] and cs["size"] < 600:
+            sts.append((len(v[2][1][1]) > 0, cs["opt_present"], v))
+    sts.sort(key=lambda x: (x[0], x[1]), reverse=True)
+    sts = [v for _, _, v in sts[:12]] or [L.minimal(stc)]
+    ems = [cs for cs in vals.get("ErrorMessage", [])]
+    codes = status_codes()
+    steps = []
+    per_res = len(codes) if tier == "thorough" else max(1, (len(codes) + len(RES) - 1) // len(RES))
+    k = 0
+    for ri, (res, name) in enumerate(RES):
+        c = by_name[name]
+        lst = vals[name]
+        rich = sorted(lst, key=lambda cs: -(cs["repeated"] + cs["opt_present"]))[:6]
+        small = min(lst, key=lambda cs: len(cs["tree"]))
+        mine = codes if tier == "thorough" else [codes[(ri * per_res + j) % len(codes)] for j in range(per_res)]
+        if 401 not in mine:
+            mine = mine + [401]
+        for code in mine:
+            a = rnd.choice(rich)
+            st = rnd.choice(sts)
+            failing = _with_status(L, G, c, G.parse(a["tree"]), ['S', st[1], [['N', code]] + list(st[2][1:]), st[3]])
+            fc = G.make_case(L, c, failing, "retry-status-%d" % code)
+            if not fc["wf"]:
+                continue
+            ok = small if k % 2 == 0 else rnd.choice(rich)
+            k += 1
+            steps.append(dict(op="read", items=[(res, [["st", fc["tree"]], ["ok", ok["tree"]]])]))
+        ok = rnd.choice(rich)
+        if ems:
+            steps.append(dict(op="read", items=[(res, [["E", rnd.choice(ems)["tree"]], ["ok", ok["tree"]]])]))
+        if tier == "thorough" or ri % 2 == 0:
+            steps.append(dict(op="read", items=[(res, [["X"], ["ok", ok["tree"]]])]))
+        if tier == "thorough" or ri == 1:      # (a truncated reply costs seconds: the client winds the broken connection down slowly)
+            steps.append(dict(op="read", items=[(res, [["P", ok["tree"]], ["ok", small["tree"]]])]))
+        steps.append(dict(op="recheck"))
+    return steps
+
+
 def trees_of(steps):
     out = []
     for s in steps:
         if s["op"] == "read":
-            out += [t for _, t in s["items"]]
+            for it in s["items"]:
+                out += [t for _, t in attempts_of(it)[1] if t]
         elif s["op"] == "report":
             out.append(s["tree"])
     return out
@@ -104,6 +186,7 @@ class Runner:
         self.W = CC.Workers("C01")
         self.exe = None
         self.ref = {}       # tree -> (payload hex, canonical JSON of the model)
+        self.exchanges = collections.Counter()      # (first answer, outcome, requests made) of the scripted multi-attempt reads
         self.log = ""
 
     def build(self):
@@ -131,9 +214,14 @@ class Runner:
         lines, plan = ["init"], [None]
         for s in steps:
             if s["op"] == "read":
-                if any(t not in self.ref for _, t in s["items"]):
+                if any(t not in self.ref for t in trees_of([s])):
                     continue
-                lines.append("read " + " ".join("%s=%s" % (r, self.ref[t][0] or "-") for r, t in s["items"]))
+                words = []
+                for it in s["items"]:
+                    res, atts = attempts_of(it)
+                    words.append(res + "=" + "/".join(({"ok": "", "st": "", "E": "E", "P": "P", "X": "X"}[k]) + ((self.ref[t][0] or "-") if t else "")
+                                                      for k, t in atts))
+                lines.append("read " + " ".join(words))
             elif s["op"] == "report":
                 if s["tree"] not in self.ref:
                     continue
@@ -147,18 +235,39 @@ class Runner:
         if out[0] != "ok":
             return [], "init: " + _unhex(out[0])
         obs, expect = [], []        # expect[k] = (resource, tree) of reading k
-        for s, a in zip(plan[1:], out[1:]):
+        for si, (s, a) in enumerate(zip(plan[1:], out[1:])):
             f = a.split(" ")
+            n = None
+            if f[-1].startswith("n="):
+                n = int(f.pop()[2:])
             if s["op"] == "recheck":
                 if f[0] != "ok" or len(f) - 1 != len(expect):
                     return obs, "recheck answered `%s` for %d readings" % (a[:80], len(expect))
                 for k, item in enumerate(f[1:]):
                     j, b = item.split(":")
-                    obs.append(dict(k=k, res=expect[k][0], tree=expect[k][1], phase="after-later-messages", json=j, bin=b))
+                    o = dict(k=k, res=expect[k][0], tree=expect[k][1], phase="after-later-messages", json=j, bin=b, step=expect[k][4], attempts=expect[k][3])
+                    if expect[k][2] is not None:
+                        o["decided"] = expect[k][2]
+                    obs.append(o)
                 continue
-            want = [(RES_NAME[r], t) for r, t in s["items"]] if s["op"] == "read" else [(RES_NAME[s["type"]], s["tree"])]
+            decided = None      # the attempt that decided the exchange of a scripted multi-attempt item: [kind, tree]
+            if s["op"] == "read":
+                want = []
+                for i, it in enumerate(s["items"]):
+                    res, atts = attempts_of(it)
+                    if len(atts) > 1 or atts[0][0] != "ok":
+                        # the answer that decided the exchange is the one to the LAST request the service made
+                        decided = atts[n - 1] if (i == 0 and n is not None and 1 <= n <= len(atts)) else ["?", None]
+                        self.exchanges[(atts[0][0], "reading" if f[0] == "ok" else "error", n)] += 1
+                        want.append((RES_NAME[res], decided[1]))
+                    else:
+                        want.append((RES_NAME[res], atts[0][1]))
+            else:
+                want = [(RES_NAME[s["type"]], s["tree"])]
             if f[0] != "ok" or len(f) - 1 != len(want):
-                obs.append(dict(k=None, res=want[0][0], tree=want[0][1], phase="at-return", failed=_unhex(a)))
+                if decided is not None and decided[0] != "ok" and f[0] == "err":
+                    continue            # the deciding answer was a failure and the command failed: nothing is claimed about it
+                obs.append(dict(k=None, res=want[0][0], tree=want[0][1], phase="at-return", failed=_unhex(a), step=s, attempts=n))
                 if f[0] in ("none", "wrong", "panic") or s["op"] == "report":
                     return obs, None       # the stream of readings is out of step from here on
                 continue
@@ -166,8 +275,11 @@ class Runner:
                 k, j, b = item.split(":")
                 if int(k) != len(expect):
                     return obs, "reading index %s, expected %d" % (k, len(expect))
-                expect.append((res, t))
-                obs.append(dict(k=int(k), res=res, tree=t, phase="at-return", json=j, bin=b))
+                expect.append((res, t, decided[0] if decided is not None else None, n, s))
+                o = dict(k=int(k), res=res, tree=t, phase="at-return", json=j, bin=b, step=s, attempts=n)
+                if decided is not None:
+                    o["decided"] = decided[0]
+                obs.append(o)
         return obs, None
 
     def judge(self, obs):
@@ -178,7 +290,15 @@ class Runner:
             if "failed" in o:
                 out.append(("reading-fails:%s" % o["res"], "%s: reading a value the Reader sent with status Success fails: %s" % (o["res"], o["failed"][:300]), o))
                 continue
+            if o["tree"] is None or o.get("decided", "ok") in ("E", "X", "P", "?"):
+                out.append(("reading-without-deciding-reply:%s" % o["res"], "%s: the command returned reading #%s although the exchange was decided by %s after %s request(s)"
+                            % (o["res"], o["k"], {"E": "an ERROR_MESSAGE", "X": "a dropped connection", "P": "a truncated reply"}.get(o.get("decided"), "an answer the script did not provide"),
+                               o.get("attempts")), o))
+                continue
             hx, model = self.ref[o["tree"]]
+            extra = ""
+            if o.get("attempts") and o["attempts"] > 1:
+                extra = " [the service made %d requests; the reading is compared with the reply to the LAST one, which decided the exchange]" % o["attempts"]
             when = ("when HandleReadCommands / the handler returned it" if o["phase"] == "at-return"
                     else "when it is looked at again after later reads / reports (the SDK serialises readings asynchronously)")
             try:
@@ -188,9 +308,9 @@ class Runner:
                 text, canon = "", "<not readable: %r>" % (e,)
             if canon != model:
                 k = CC.first_diff(canon, model)
-                out.append(("reading-differs:%s:%s" % (o["res"], o["phase"]),
+                out.append(("reading-differs:%s:%s" % (o["res"], "after-retry" if (o.get("attempts") or 0) > 1 and o["phase"] == "at-return" else o["phase"]),
                             "%s: the JSON of reading #%d is not the JSON form of the value the Reader sent for it, %s (canonical form, offset %d of %d/%d): "
-                            "reading=…%s… sent=…%s… (strings as hex)" % (o["res"], o["k"], when, k, len(canon), len(model), CC._ctx(canon, k), CC._ctx(model, k)), o))
+                            "reading=…%s… sent=…%s… (strings as hex)%s" % (o["res"], o["k"], when, k, len(canon), len(model), CC._ctx(canon, k), CC._ctx(model, k), extra), o))
             elif (o["bin"] if o["bin"] != "-" else "") != hx:
                 b = o["bin"] if o["bin"] != "-" else ""
                 out.append(("reading-reencodes-differently:%s:%s" % (o["res"], o["phase"]),
@@ -221,7 +341,8 @@ def cut_down(R, steps, sig, bad):
         return False
     own = [s for s in steps if touches(s)]
     best = steps
-    for cand in (own[:2], own[:4], own[-2:], own[:8], own[:16], own):
+    alone = [bad["step"]] if isinstance(bad.get("step"), dict) and bad["step"]["op"] != "recheck" else []
+    for cand in (alone, own[:2], own[:4], own[-2:], own[:8], own[:16], own):
         if not cand or len(cand) >= len(best):
             continue
         cand = cand + [dict(op="recheck")]
@@ -250,6 +371,8 @@ def scan_sites(R, st):
                    decode_functions=end[0].split(" ")[2].split(",") if len(end[0].split(" ")) > 2 else [],
                    rule="fresh = &T{..} / new(T) / T{..} / var x T / named result / field of such, allocated in this activation and inside the loop the "
                         "decode is in, decoded into once; passthrough = a parameter (callers are scanned); anything else is reported")
+    st.repeated = [dict(site=x[1], function=x[2], callee=x[3], target=x[4], reason=x[6]) for x in sites if x[5] == "repeated"]
+    st.scan["repeated_sites"] = st.repeated
     seen = set()
     for _, where, fn, callee, target, verdict, reason in sites:
         if verdict != "retained":
@@ -269,6 +392,7 @@ class State:
         self.t0 = time.time()
         self.error = None
         self.scan = {}
+        self.repeated = []
         self.findings = []      # (sig, what, replay[, found])
         self.cov = {}
         self.seconds = 0.0
@@ -291,11 +415,12 @@ def background(st, tier, seed, replay):
             if rp.get("kind") != "driver-readings":
                 st.cov = dict(status="not part of this replay")
                 return
-            steps = [dict(s, items=[tuple(x) for x in s["items"]]) if s["op"] == "read" else s for s in rp["script"]]
+            steps = [dict(s, items=[(x[0], x[1]) for x in s["items"]]) if s["op"] == "read" else s for s in rp["script"]]
             scripts = [steps] * 3
         else:
-            scripts = [make_script(pick_values(L, G, seed, tier), seed)]
-        reads = reports = rechecked = compared = 0
+            vals = pick_values(L, G, seed, tier)
+            scripts = [make_script(vals, seed) + retry_steps(L, G, vals, seed, tier)]
+        reads = reports = rechecked = compared = multi = 0
         seen = {}
         for n, steps in enumerate(scripts):
             obs, err = R.run(steps, tag="_%d" % n)
@@ -303,6 +428,7 @@ def background(st, tier, seed, replay):
                 st.error = ("driver-harness-run", err)
                 return
             reads += sum(len(s["items"]) for s in steps if s["op"] == "read")
+            multi += sum(1 for s in steps if s["op"] == "read" and any(len(attempts_of(it)[1]) > 1 for it in s["items"]))
             reports += sum(1 for s in steps if s["op"] == "report")
             rechecked += sum(1 for o in obs if o["phase"] != "at-return")
             compared += len(obs)
@@ -322,7 +448,23 @@ def background(st, tier, seed, replay):
                 len(small), len(trees), o["tree"] if len(o["tree"]) < 400 else o["tree"][:400] + "…"),
                 dict(kind="driver-readings", resource=o["res"], script=script, expected_tree=o["tree"], cases=[dict(tree=t) for t in trees[:50]])))
         scan_sites(R, st)
-        st.cov = dict(status="run", decode_sites=st.scan, read_commands=reads, reports_sent=reports, readings_compared=compared, rechecked_after_later_messages=rechecked,
+        # a value may be decoded into at most once per allocation. Sites where a passed-in value is decoded into inside a loop / retry closure
+        # (verdict `repeated`) cannot be settled syntactically: they are settled by the failure-first exchanges above. If this run did not see
+        # the service ask more than once in any exchange, those sites are unexamined and are reported.
+        asked_again = sum(cnt for (first, outcome, n), cnt in R.exchanges.items() if n is not None and n > 1)
+        if st.repeated and not replay:
+            st.scan["repeated_sites_exercised_by"] = "%d exchange(s) in which the service made more than one request" % asked_again
+            if asked_again == 0:
+                for r in st.repeated:
+                    st.findings.append(("decode-repeated-into-one-value:%s:%s" % (r["site"].split(":")[0], r["function"]),
+                                        "%s (%s): %s may decode into `%s` more than once (%s) and no scripted exchange of this run made the service ask "
+                                        "twice, so nothing shows that a second decode never lands on the result of a first" % (
+                                            r["site"], r["function"], r["callee"], r["target"], r["reason"]), dict(kind="scan", **r), False))
+        ex = {}
+        for (first, outcome, n), cnt in sorted(R.exchanges.items(), key=str):
+            ex["first answer %s -> %s after %s request(s)" % ({"st": "a non-Success status", "E": "ERROR_MESSAGE", "X": "connection dropped",
+                                                               "P": "truncated reply then dropped", "ok": "Success"}.get(first, first), outcome, n)] = cnt
+        st.cov = dict(status="run", decode_sites=st.scan, read_commands=reads, failure_first_exchanges=multi, exchange_outcomes=ex, reports_sent=reports, readings_compared=compared, rechecked_after_later_messages=rechecked,
                       values=len(R.ref), signatures=len(seen),
                       note="real Driver/LLRPDevice/llrp.Client against a scripted Reader (harness/driver/c01_test.go); each reading's JSON text "
                            "(python json parser, canonical form) == Json.to_json of the value sent that time, its MarshalBinary == the bytes sent; "
